@@ -3,6 +3,7 @@ import TorrentVerif.Proofs.RecheckFull
 import TorrentVerif.Model.ExceptEq
 import TorrentVerif.Proofs.EndToEndV2
 import TorrentVerif.Proofs.EndToEndEdit
+import TorrentVerif.Proofs.RecheckSiblings
 /-
   C05 — recheck reports exactly 100 % for intact content of any well-formed metafile.
   Property theorems only; helper lemmas live in `Proofs/Recheck.lean`.
@@ -765,5 +766,134 @@ example : ∃ mf', Impl.editTorrent RF.Ex.v1Meta
   refine ⟨mf', h, ?_⟩
   exact (recheck_after_edit RF.Ex.h1 toyH 2 2 (Impl.encode RF.Ex.v1Meta) RF.Ex.v1Meta mf'
     (loads_encode_uniq _ (by decide)) _ h ⟨.parent, [104]⟩ RF.Ex.v1Disk).2 _ (by decide +kernel)
+
+end TorrentVerif.Props.C05
+
+/-! ### the content path is a parent directory with further entries ("siblings")
+
+  What is at the content path is a `Node`; a parent directory is `.dir parent` with
+  `parent : List (Bytes × Node)`, the listing of that directory with everything below it — the same
+  type `root_or_parent` uses.  (`Impl.recheck` with `⟨.parent, pname⟩` places the payload in a parent
+  that holds nothing else; `Impl.recheckMeta` takes any directory.) -/
+namespace TorrentVerif.Props.C05
+open TorrentVerif
+
+open RF in
+/-- Recheck ignores the siblings of the content.  Let the content path be a directory (named
+    `pname`).  The result of the whole `Checker` — verdict list, matched, consumed, or the error —
+    depends only on the entry of that directory whose name is EXACTLY `info.name`, byte for byte
+    (`child (.dir p) name`: `name in os.listdir(root)`, then `root / name`): for any two
+    directories `p1`, `p2` that hold the same thing under that name — or both nothing — the
+    results are equal, whatever else they contain: an intact copy whose name differs in letter
+    case only, entries whose names match the torrent's name as a glob pattern, entries in any
+    order, or none.  In particular a damaged `album` next to an intact `Album` is reported as
+    damaged, and when no entry has the exact name the answer is `notFound` in both.
+
+    Side condition (`hside`), the one of `root_or_parent` and no other: the directory itself is
+    not named like the torrent; or it is, and `_is_parent` recognises the entry as the content in
+    both (`Impl.isParent … = .ok true`: strictly more of the described top-level names below the
+    entry than directly in the directory; a regular file for a single-file torrent).  It is
+    needed: `siblings_matter_in_a_namesake_parent`. -/
+theorem recheck_ignores_siblings (H1 H : Bytes → Bytes) (B hs : Nat) (mf : BVal) (pname : Bytes)
+    (p1 p2 : List (Bytes × Node))
+    (hsame : child (.dir p1) (Impl.nameOf mf) = child (.dir p2) (Impl.nameOf mf))
+    (hside : pname ≠ Impl.nameOf mf ∨ ∃ payload, child (.dir p1) (Impl.nameOf mf) = some payload ∧
+      Impl.isParent (Impl.infoOf mf) (Impl.nameOf mf) (.dir p1) payload = .ok true ∧
+      Impl.isParent (Impl.infoOf mf) (Impl.nameOf mf) (.dir p2) payload = .ok true) :
+    Impl.recheckMeta H1 H B hs mf pname (some (.dir p1))
+      = Impl.recheckMeta H1 H B hs mf pname (some (.dir p2)) :=
+  Spec.recheckMeta_congr H1 H B hs mf _ _ _ _
+    (Spec.findRoot_only_entry (Impl.infoOf mf) (Impl.nameOf mf) pname p1 p2 hsame hside)
+
+/-- the v2 torrent `album`; the directory `h` holds a DAMAGED `album` (`a` truncated, `d/c`
+    missing) between intact copies named `Album`, `albu?` and `*`: the result is that of a
+    directory holding the damaged `album` alone — piece 0 of `a` verifies, the rest does not,
+    4 of 10 bytes — not the 10 of 10 of the copies -/
+example :
+    Impl.recheckMeta RF.Ex.h1 toyH 2 2 RF.Ex.albumMeta [104] (some (.dir RF.Ex.albumCrowd))
+      = Impl.recheckMeta RF.Ex.h1 toyH 2 2 RF.Ex.albumMeta [104]
+          (some (.dir [(RF.Ex.sAlbum, RF.Ex.v2Damaged)])) ∧
+    Impl.recheckMeta RF.Ex.h1 toyH 2 2 RF.Ex.albumMeta [104] (some (.dir RF.Ex.albumCrowd))
+      = .ok ([(true, 4), (false, 3), (false, 3)], 4, 10) ∧
+    Impl.recheckMeta RF.Ex.h1 toyH 2 2 RF.Ex.albumMeta [104]
+        (some (.dir [(RF.Ex.sAlbumCap, RF.Ex.v2Disk)]))
+      = .error .notFound :=
+  ⟨recheck_ignores_siblings RF.Ex.h1 toyH 2 2 RF.Ex.albumMeta [104] RF.Ex.albumCrowd
+      [(RF.Ex.sAlbum, RF.Ex.v2Damaged)] rfl (Or.inl (by decide)),
+    by decide +kernel, by decide +kernel⟩
+
+/-- only intact copies under other names (`Album`, `albu?`, `*`), nothing named exactly `album`:
+    as for an empty directory, the content is not found; and the second disjunct of `hside`: the
+    directory is itself named `album`, `_is_parent` finds `a`, `b` below the damaged entry and
+    none of the described names directly in the directory -/
+example :
+    Impl.recheckMeta RF.Ex.h1 toyH 2 2 RF.Ex.albumMeta [104] (some (.dir RF.Ex.albumAbsent))
+      = Impl.recheckMeta RF.Ex.h1 toyH 2 2 RF.Ex.albumMeta [104] (some (.dir [])) ∧
+    Impl.recheckMeta RF.Ex.h1 toyH 2 2 RF.Ex.albumMeta [104] (some (.dir RF.Ex.albumAbsent))
+      = .error .notFound ∧
+    Impl.recheckMeta RF.Ex.h1 toyH 2 2 RF.Ex.albumMeta RF.Ex.sAlbum (some (.dir RF.Ex.albumCrowd))
+      = Impl.recheckMeta RF.Ex.h1 toyH 2 2 RF.Ex.albumMeta RF.Ex.sAlbum
+          (some (.dir [(RF.Ex.sAlbum, RF.Ex.v2Damaged)])) :=
+  ⟨recheck_ignores_siblings RF.Ex.h1 toyH 2 2 RF.Ex.albumMeta [104] RF.Ex.albumAbsent []
+      rfl (Or.inl (by decide)),
+    by decide +kernel,
+    recheck_ignores_siblings RF.Ex.h1 toyH 2 2 RF.Ex.albumMeta RF.Ex.sAlbum RF.Ex.albumCrowd
+      [(RF.Ex.sAlbum, RF.Ex.v2Damaged)] rfl
+      (Or.inr ⟨RF.Ex.v2Damaged, rfl, by decide, by decide⟩)⟩
+
+open RF in
+/-- The same for the whole `Impl.recheck` on the metafile BYTES: a parent directory that holds
+    the payload under the torrent's exact name, and anything else besides, gives what
+    `Impl.recheck` gives for the content argument "parent" (a parent holding the payload alone).
+    `hparent` is the hypothesis of `root_or_parent` for the crowded directory, `hplace` is
+    `ContentArg.Resolves` for the directory holding the payload alone. -/
+theorem recheck_ignores_siblings_arg (H1 H : Bytes → Bytes) (B hs : Nat) (metafile : Bytes)
+    (mf : BVal) (payload : Disk) (parent : List (Bytes × Node)) (pname : Bytes)
+    (hmf : Impl.loads metafile = some mf)
+    (hstored : child (.dir parent) (Impl.nameOf mf) = some payload)
+    (hparent : pname ≠ Impl.nameOf mf ∨
+      Impl.isParent (Impl.infoOf mf) (Impl.nameOf mf) (.dir parent) payload = .ok true)
+    (hplace : (⟨.parent, pname⟩ : ContentArg).Resolves (Impl.infoOf mf) (Impl.nameOf mf) payload) :
+    Impl.recheckMeta H1 H B hs mf pname (some (.dir parent))
+      = Impl.recheck H1 H B hs metafile ⟨.parent, pname⟩ payload := by
+  simp only [Impl.recheck, hmf, ContentArg.place]
+  have hc : child (.dir [(Impl.nameOf mf, payload)]) (Impl.nameOf mf) = some payload := by
+    simp [child]
+  refine recheck_ignores_siblings H1 H B hs mf pname parent _ (hstored.trans hc.symm) ?_
+  by_cases hn : pname = Impl.nameOf mf
+  · refine Or.inr ⟨payload, hstored, ?_, ?_⟩
+    · exact hparent.resolve_left (fun h => h hn)
+    · exact (show pname ≠ Impl.nameOf mf ∨ _ from hplace).resolve_left (fun h => h hn)
+  · exact Or.inl hn
+
+/-- the bytes of the `album` metafile, the crowded directory `h`: as `Impl.recheck` with the
+    content argument "parent `h`" on the damaged payload -/
+example :
+    Impl.recheckMeta RF.Ex.h1 toyH 2 2 RF.Ex.albumMeta [104] (some (.dir RF.Ex.albumCrowd))
+      = Impl.recheck RF.Ex.h1 toyH 2 2 (Impl.encode RF.Ex.albumMeta) ⟨.parent, [104]⟩
+          RF.Ex.v2Damaged :=
+  recheck_ignores_siblings_arg RF.Ex.h1 toyH 2 2 (Impl.encode RF.Ex.albumMeta) RF.Ex.albumMeta
+    RF.Ex.v2Damaged RF.Ex.albumCrowd [104] (E2E.loads_encode_uniq _ (by decide)) rfl
+    (Or.inl (by decide)) (Or.inl (by decide))
+
+/-- WITNESS that `hside` is needed (= `root_or_parent_needs_side_condition`, read for siblings;
+    the real `Checker` agrees): two directories, both NAMED like the torrent `n`, both holding
+    the same intact payload under the name `n`.  The one that also has entries `a`, `b`, `d` of
+    its own (as many described top-level names as the payload has) is taken for the content
+    itself and nothing verifies; the other one resolves to the payload.  Under any other name
+    (`h`) the two agree. -/
+theorem siblings_matter_in_a_namesake_parent :
+    ∃ (mf : BVal) (p1 p2 : List (Bytes × Node)),
+      RF.child (.dir p1) (Impl.nameOf mf) = RF.child (.dir p2) (Impl.nameOf mf) ∧
+      Impl.recheckMeta RF.Ex.h1 toyH 2 2 mf (Impl.nameOf mf) (some (.dir p1))
+        = .ok ([(false, 4), (false, 3), (false, 3)], 0, 10) ∧
+      Impl.recheckMeta RF.Ex.h1 toyH 2 2 mf (Impl.nameOf mf) (some (.dir p2))
+        = .ok ([(true, 4), (true, 3), (true, 3)], 10, 10) ∧
+      Impl.recheckMeta RF.Ex.h1 toyH 2 2 mf [104] (some (.dir p1))
+        = Impl.recheckMeta RF.Ex.h1 toyH 2 2 mf [104] (some (.dir p2)) :=
+  ⟨RF.Ex.v2Meta, RF.Ex.v2Crowded, [([110], RF.Ex.v2Disk)], rfl, by decide +kernel,
+    by decide +kernel,
+    recheck_ignores_siblings RF.Ex.h1 toyH 2 2 RF.Ex.v2Meta [104] RF.Ex.v2Crowded
+      [([110], RF.Ex.v2Disk)] rfl (Or.inl (by decide))⟩
 
 end TorrentVerif.Props.C05
